@@ -143,7 +143,7 @@ def cfgs(quick):
             c("dyn", "modes", "none", 3),
             c("res", "all", "none", 4), c("res", "all", "saved", 3),
             c("static", "all", "none", 4), c("static", "all", "wos", 3),
-            c("hl", "links", "la", 3), c("hl", "trait", "unprobed", 4), c("hl", "trait", "none", 3),
+            c("hl", "links", "la", 3), c("hl", "trait", "unprobed", 3), c("hl", "trait", "none", 3),
             c("hl", "cache", "none", 4), c("hl", "cache", "la", 4, fcap=2)]
 
 
@@ -253,7 +253,8 @@ def run(ctx):
     nrand, rlen = (40, 60) if ctx.quick else (1200, 100)
     rtrace = ctx.path("trace_random.ndjson")
     dump = ctx.path("prog_random.ndjson")
-    d = lib.run_driver("drv_containers", ["--random", nrand, "--len", rlen, "--out", rtrace, "--dump-programs", dump], env={"VERIF_SEED": ctx.seed})
+    lib.run_driver("drv_containers", ["--random", nrand, "--len", rlen, "--out", rtrace, "--dump-programs", dump, "--dump-only"], env={"VERIF_SEED": ctx.seed})
+    d = lib.run_sharded(ctx, "drv_containers", dump, rtrace, shards=min(lib.NCPU, 12))
     ctx.stage("run", source="random", programs=d.get("programs"), events=d.get("events"), hangs=d.get("hangs"), wall_s=d["wall_s"])
     count_ops(ctx, d)
     _, dn = lib.count_distinct(dump)
